@@ -105,6 +105,7 @@ namespace ref
       const node* n = nullptr;
       const int* akinds = nullptr;   // per registry id (action family A)
       const int* akinds_b = nullptr; // per registry id (action family B)
+      const char* const* mif = nullptr;   // must_if messages per registry id: a local failure of such a rule is raised as a global one
       unsigned salt = 0;
       int eolpol = 3;                // 0 lf, 1 cr, 2 crlf, 3 lf_crlf, 4 cr_crlf
       std::string_view in;
@@ -181,6 +182,15 @@ namespace ref
          return ( t && vid >= 0 ) ? t[ vid ] : A_NONE;
       }
 
+      static outcome raise_mif( int vid, std::size_t p )
+      {
+         outcome r{ RAISED, p };
+         r.xkind = X_PARSE_ERROR;
+         r.blame = vid;
+         r.xbegin = p;
+         return r;
+      }
+
       // a visible rule: switches attached through its action's match() wrap the body; then its own action runs
       outcome visible( const node& x, std::size_t p, std::size_t e, const ctx& c )
       {
@@ -202,15 +212,18 @@ namespace ref
          ++depth;
          outcome r = ev( x.kids[ 0 ], p, e, c2 );
          --depth;
+         if( r.st == FAIL && mif && x.vid >= 0 && mif[ x.vid ] ) return raise_mif( x.vid, p );
          if( r.st != OK ) return r;
          evs[ idx ].e = r.end;
          if( own_action_in_new_family ) {
             // the rule is re-entered with the new action family: its own action comes from that family
             outcome a = run_action( x.vid, p, r.end, c2 );
+            if( a.st == FAIL && mif && x.vid >= 0 && mif[ x.vid ] ) return raise_mif( x.vid, p );
             if( a.st != OK ) return a;
          }
          else if( k < A_CHANGE_STATE ) {
             outcome a = run_action( x.vid, p, r.end, c2 );
+            if( a.st == FAIL && mif && x.vid >= 0 && mif[ x.vid ] ) return raise_mif( x.vid, p );
             if( a.st != OK ) return a;
          }
          if( scope_idx >= 0 ) {
